@@ -177,6 +177,29 @@ def patch_clock(module):
 
 
 # ----------------------------------------------------------------------------- in-memory FS
+class Crash(BaseException):
+    """the process is killed (C13): not an Exception, so no `except Exception` in the code under test swallows it"""
+
+
+# FS_HOOK[0](path, data) -> (data to store, crash afterwards?) is consulted before every write to a FakeFS (C13's crash
+# points); it may raise Crash itself (killed BEFORE the write) or hand back torn data and ask for the crash after it
+FS_HOOK = [None]
+
+
+def _fs_write(fs, path, data, atomic=False):
+    hook = FS_HOOK[0]
+    crash = False
+    if hook is not None:
+        new, crash = hook(path, data)
+        if atomic and crash:
+            raise Crash(path)          # an atomic replacement cannot be torn: killed before it
+        data = new
+    fs.files[path] = data
+    fs.writes.append((path, data))
+    if crash:
+        raise Crash(path)
+
+
 class FakeFS:
     def __init__(self, files=None):
         self.files = dict(files or {})
@@ -258,9 +281,8 @@ class FakePath:
         return self.read_text()
 
     def write_text(self, data, *a, **k):
-        self._fs.files[self._p] = data
-        self._fs.writes.append((self._p, data))
-        return len(data)
+        _fs_write(self._fs, self._p, data)
+        return len(data) if isinstance(data, str) else 0
 
     def touch(self, *a, **k):
         if self._p not in self._fs.files:
@@ -271,6 +293,19 @@ class FakePath:
 
     def unlink(self, *a, **k):
         del self._fs.files[self._p]
+
+    def with_name(self, name):
+        if "/" not in self._p:
+            return FakePath(name, self._fs)
+        return FakePath(self._p.rsplit("/", 1)[0] + "/" + name, self._fs)
+
+    def replace(self, target):
+        # os.replace: atomic - the target has either its old or its new contents (a crash point like any write)
+        t = str(target)
+        data = self._fs.files[self._p]
+        _fs_write(self._fs, t, data, atomic=True)
+        del self._fs.files[self._p]
+        return FakePath(t, self._fs)
 
     def rename(self, target):
         t = str(target)
@@ -332,8 +367,12 @@ class JsonShim:
     def dump(obj, f, **k):
         f._buf = []
         f._obj = obj
-        f._path._fs.files[f._path._p] = _JsonBlob(dict(obj))
         f._mode = "r"   # suppress text write on close
+        _fs_write(f._path._fs, f._path._p, _JsonBlob(dict(obj)))
+
+    @staticmethod
+    def dumps(obj, **k):
+        return _JsonBlob(dict(obj))
 
     @staticmethod
     def loads(blob):
